@@ -68,7 +68,14 @@ pub fn case_trusted(bytes: &[u8], ctx: &mut Ctx) -> CaseResult {
     cfg.huge = false;
     cfg.careful_rate = 235;
     cfg.mutation_rate = 25;
-    let b = condgen::gen_bundle(&mut s, &cfg);
+    // a quarter of the cases use puzzles that RUN a program from the solution
+    // (conditions computed at run time, optionally behind an operator probe whose
+    // outcome depends on the operator flags) instead of quoted condition lists.
+    // Decided by the last byte of the input, not by a choice read here, so that
+    // older replay files keep their meaning.
+    let eval_mode = bytes.len() >= 32 && bytes[bytes.len() - 1] & 3 == 3;
+    cfg.eval_puzzles = eval_mode;
+    let mut b = condgen::gen_bundle(&mut s, &cfg);
     let backrefs = s.bool();
     // spend-level extras (allowed by consensus: "(parent puzzle amount solution . extra)")
     let extra_kind = if s.chance(50) { 1 + s.below(3) } else { 0 };
@@ -85,6 +92,25 @@ pub fn case_trusted(bytes: &[u8], ctx: &mut Ctx) -> CaseResult {
     let bulk_n = s.below(1 << 16);
     let bulk = if bulk >= 1198 { bulk - 1197 } else { 0 };
     let flags = if interned || (bulk != 0 && bulk_n % 4 != 0) { flags | ConsensusFlags::INTERNED_GENERATOR } else { flags };
+    // operator flags (hard-fork activations): every subset
+    let flags = flags | proglevel::op_flag_subset(s.below(64));
+    let mut probed = false;
+    let mut solutions: Vec<Tid> = b.spends.iter().map(|sp| sp.cond_list).collect();
+    if eval_mode && bulk == 0 {
+        ctx.label("puzzles:run-program-from-solution");
+        for i in 0..b.spends.len() {
+            let cl = b.spends[i].cond_list;
+            let mut budget = 30usize;
+            let mut prog = proglevel::computed_program(&mut b.tree, cl, &mut s, &mut budget, 0);
+            if s.chance(90) {
+                let (p, name) = proglevel::with_probe(&mut b.tree, prog, &mut s);
+                prog = p;
+                probed = true;
+                ctx.label(name);
+            }
+            solutions[i] = b.tree.list(&[prog]);
+        }
+    }
     ctx.ran_dry(s.ran_dry());
     let mut t: Tree = b.tree.clone();
     let mut nodes: Vec<Tid> = vec![];
@@ -124,7 +150,7 @@ pub fn case_trusted(bytes: &[u8], ctx: &mut Ctx) -> CaseResult {
         }
         let pa = t.atom(&sp.parent);
         let am = t.atom(&enc_u64(sp.amount));
-        let mut fields = vec![pa, sp.puzzle, am, sp.cond_list];
+        let mut fields = vec![pa, sp.puzzle, am, solutions[i]];
         let mut tail = t.nil();
         if extra_kind != 0 && i == extra_at {
             match extra_kind {
@@ -185,6 +211,9 @@ pub fn case_trusted(bytes: &[u8], ctx: &mut Ctx) -> CaseResult {
         }
     };
     ctx.label("accepted");
+    if probed {
+        ctx.label("accepted:with-operator-probe");
+    }
     if flags.contains(ConsensusFlags::INTERNED_GENERATOR) {
         ctx.label("accepted:interned-pricing");
     }
@@ -358,7 +387,10 @@ pub fn case_trusted(bytes: &[u8], ctx: &mut Ctx) -> CaseResult {
         &TEST_CONSTANTS,
     )
     .is_ok();
-    if mempool_valid {
+    // (SpendBundle::additions runs the puzzles without any flags — documented as
+    // not performing consensus validation — so bundles whose validity rests on an
+    // operator flag are outside its contract)
+    if mempool_valid && !probed {
         ctx.label("spendbundle-additions:checked");
         let sb = SpendBundle::new(css.clone(), Signature::default());
         match sb.additions() {
@@ -394,7 +426,7 @@ fn hexs(b: &[u8]) -> String {
 pub fn property() -> Property {
     Property {
         id: "C09",
-        rule: "a case is a block generator (quoted output, plain or back-reference serialized) over bundles from the shared generator in careful mode — the full catalogue of CREATE_COIN memo shapes (absent, (), hint of 32/short/33 bytes, empty first memo, pair as first memo, improper memo list, several memos, atom instead of list), amounts of every encoding, unknown and non-atom opcodes in between, optional spend-level extra fields — under 8 flag sets x {byte pricing, INTERNED_GENERATOR pricing}; about 1 case in 600 is instead a bulk block of ~0.5-1.3 MB of repetitive content (1500-3500 spends of one puzzle, or 50-120 spends carrying the same 10 kB atom; the lookups are then sampled). Only generators accepted by run_block_generator2 within the block cost limit are examined. Non-trivial = accepted generator with ≥1 CREATE_COIN carrying a memo structure; distinct by (program bytes, flags).",
+        rule: "a case is a block generator (quoted output, plain or back-reference serialized) over bundles from the shared generator in careful mode — the full catalogue of CREATE_COIN memo shapes (absent, (), hint of 32/short/33 bytes, empty first memo, pair as first memo, improper memo list, several memos, atom instead of list), amounts of every encoding, unknown and non-atom opcodes in between, optional spend-level extra fields — under 8 flag sets x {byte pricing, INTERNED_GENERATOR pricing} x every subset of the six operator flags (RELAXED_BLS, keccak, sha256tree, secp, MALACHITE, GC); in a quarter of the cases the puzzles run a program taken from the solution (conditions computed at run time, optionally behind an operator probe whose outcome depends on those flags); about 1 case in 600 is instead a bulk block of ~0.5-1.3 MB of repetitive content (1500-3500 spends of one puzzle, or 50-120 spends carrying the same 10 kB atom; the lookups are then sampled). Only generators accepted by run_block_generator2 within the block cost limit are examined. Non-trivial = accepted generator with ≥1 CREATE_COIN carrying a memo structure; distinct by (program bytes, flags).",
         assumptions: &[
             "the validated conditions of run_block_generator2 are the reference; the helpers are compared with them",
             "generator output for get_puzzle_and_solution_for_coin is produced by the harness with clvmr::run_program and chia-consensus setup_generator_args",
@@ -406,7 +438,7 @@ pub fn property() -> Property {
             run: case_trusted,
             inflight: false,
             min_nontrivial: 15_000,
-            required_labels: &["accepted", "memo:hint32", "memo:empty-first", "memo:improper", "memo:several", "memo:pair-first", "spend-level-extra", "accepted:interned-pricing", "bulk:accepted-plain-generator>=900k"],
+            required_labels: &["accepted", "memo:hint32", "memo:empty-first", "memo:improper", "memo:several", "memo:pair-first", "spend-level-extra", "accepted:interned-pricing", "bulk:accepted-plain-generator>=900k", "puzzles:run-program-from-solution", "accepted:with-operator-probe"],
         }],
         death_is_violation: false,
     }
